@@ -124,11 +124,11 @@ def _inf_reps(group):
     return out
 
 
-def pt_case(group, Pm, lam, inf_i=None):
+def pt_case(group, Pm, lam, inf_i=None, fq_coeffs=False):
     """list of (what, expected, observed) mismatches for one representative"""
     pc, g2p = _pc(), _g2p()
     cfg = _cfg(group)
-    rep = _inf_reps(group)[inf_i] if Pm is None else lib.opt_pt(cfg, Pm, lam)
+    rep = _inf_reps(group)[inf_i] if Pm is None else lib.opt_pt(cfg, Pm, lam, fq_coeffs)
     bad = []
     if group == "E1":
         word = zcash.encode_g1(Pm)
@@ -189,12 +189,15 @@ def task_points(a, env):
                                            "tier": env["tier"]}, exp, got)
     for (label, Pm) in sel:
         for li, lam in enumerate(lams):
-            r.ev += 4
-            r.dk.add((label, Pm[0] if group == "E1" else Pm[0][0], li))
-            for what, exp, got in pt_case(group, Pm, lam):
-                r.viol(_key_pt(group, label, what, Pm), ME + ":replay_pt",
-                       {"group": group, "idx": dom.index((label, Pm)), "li": li, "inf": None,
-                        "seed": env["seed"], "tier": env["tier"]}, exp, got, note=what)
+            # representatives: int coefficients for every scaling; for G2 additionally FQ-object
+            # coefficients in the affine (z = 1) and in one scaled form
+            for fqc in ((False, True) if group == "E2" and li in (0, 1) else (False,)):
+                r.ev += 4
+                r.dk.add((label, Pm[0] if group == "E1" else Pm[0][0], li, fqc))
+                for what, exp, got in pt_case(group, Pm, lam, None, fqc):
+                    r.viol(_key_pt(group, label, what, Pm) + (":fq-coefficients" if fqc else ""), ME + ":replay_pt",
+                           {"group": group, "idx": dom.index((label, Pm)), "li": li, "inf": None, "fqc": fqc,
+                            "seed": env["seed"], "tier": env["tier"]}, exp, got, note=what)
     if a["lo"] == 0:
         r.sample({"group": group, "labels": sorted(set(l for l, _ in dom)), "points": len(dom),
                   "scalings": len(lams), "infinity_representatives": len(_inf_reps(group))})
@@ -209,7 +212,7 @@ def replay_pt(a):
     else:
         dom = _point_domain(group, env, a["tier"] == "thorough")
         lams = C07_full.scalings(_cfg(group), env, "C11" + group)
-        bad = pt_case(group, dom[a["idx"]][1], lams[a["li"]])
+        bad = pt_case(group, dom[a["idx"]][1], lams[a["li"]], None, a.get("fqc", False))
     return None if not bad else {"mismatches": [(w, e, g) for w, e, g in bad]}
 
 
